@@ -38,21 +38,37 @@ PairProps(a, b) ==
   /\ (a.gen # b.gen => ~Contra(a, b))                \* different generators never
   /\ ([a EXCEPT !.gen = 1] = [b EXCEPT !.gen = 1] /\ a.gen = b.gen => Contra(a, b))
                                                      \* same triple, same generator, distinct ids: double forging
+  /\ (a.gen = b.gen /\ a.mhg < a.h /\ b.h > a.h /\ b.mhp >= a.mhp /\ b.mhg < a.h => Contra(a, b))
+                                                     \* a later, higher header that does not acknowledge the generator's own
+                                                     \* earlier block a (claims maxHeightGenerated below a's height) contradicts
+                                                     \* it: the "lying" blocks of RecvTime.tla
 
 (* ---------------- fork choice ---------------- *)
 \* tip:  id 1, height TipH, maxHeightPrevoted TipP, previous id 0, slot 5, generator 1
-\* inc:  [id, h, prev, gen, mhp, slot]; recvLast in {"nil","in","out"}; recvCur in BOOLEAN
+\* inc:  [id, h, prev, gen, mhp, slot]
+\* Receive times are offsets in seconds from the START of the slot a block was generated in (the slot of its timestamp);
+\* BT seconds per slot.  LIP-0014: a block is "received within its slot" iff the receive time lies in [0, BT).  The
+\* offsets are the boundary values of that interval: last second of the slot before, first and last second of the slot,
+\* first second of the next slot, and the middle of the third slot after it.
+\*   recvLast  when the tip was received (NoRecv: nothing remembered - restored from disk or obtained by synchronisation,
+\*             which counts as received in time)
+\*   recvCur   when the incoming block is received (= the wall clock of the evaluation)
 TipH == 3
 TipP == 1
+BT == 1000
+NoRecv == -(10 * BT)
+RecvOffsets == {-1, 0, BT - 1, BT, 3 * BT + BT \div 2}
+InSlot(o) == 0 <= o /\ o < BT
 Incs == [id : {1, 2}, h : (TipH - 1)..(TipH + 2), prev : {0, 1, 9}, gen : {1, 2}, mhp : 0..2, slot : 4..6]
-Cases == [inc : Incs, recvLast : {"nil", "in", "out"}, recvCur : BOOLEAN]
+Cases == [inc : Incs, recvLast : RecvOffsets \cup {NoRecv}, recvCur : RecvOffsets]
 
 Duplicate(i) == i.h = TipH /\ i.mhp = TipP /\ i.prev = 0
+TipInTime(c) == c.recvLast = NoRecv \/ InSlot(c.recvLast)
 \* the five predicates of forkchoice.go
 PIdentical(c) == c.inc.id = 1
 PValid(c) == c.inc.h = TipH + 1 /\ c.inc.prev = 1
 PDouble(c) == Duplicate(c.inc) /\ c.inc.gen = 1
-PTie(c) == Duplicate(c.inc) /\ 5 < c.inc.slot /\ c.recvLast = "out" /\ c.recvCur
+PTie(c) == Duplicate(c.inc) /\ 5 < c.inc.slot /\ ~TipInTime(c) /\ InSlot(c.recvCur)
 PDiff(c) == TipP < c.inc.mhp \/ (TipH < c.inc.h /\ TipP = c.inc.mhp)
 \* their evaluation order in Executer.process()
 Classify(c) ==
@@ -70,23 +86,38 @@ ClassifyProps(c) ==
   /\ (k = "differentchain" => Better([mhp |-> i.mhp, h |-> i.h], [mhp |-> TipP, h |-> TipH]))
   /\ (k = "discard" /\ ~Duplicate(i) => ~Better([mhp |-> i.mhp, h |-> i.h], [mhp |-> TipP, h |-> TipH]))
   /\ (k \in {"doubleforging", "tiebreak"} => Duplicate(i))
+  \* a tip that was received within its slot (or whose receive time is not remembered) is never replaced by a tie break,
+  \* and neither is any tip by a block that arrives outside the slot it was generated for
+  /\ (k = "tiebreak" => ~TipInTime(c) /\ InSlot(c.recvCur) /\ i.gen # 1)
 
 (* ---------------- HeaderHasPriority / Synced ---------------- *)
-Prios == [hh : 0..MaxF, hp : 0..MaxF, h : 0..MaxF, p : 0..MaxF]
-\* header (hh, hp) has priority over (h, p)
-HasPriority(q) == Better([mhp |-> q.hp, h |-> q.hh], [mhp |-> q.p, h |-> q.h])
+\* header (version ver, height hh, maxHeightPrevoted hp) has priority over a chain whose tip is (h, p).
+\* A version-2 header: the LIP-0014 order on (maxHeightPrevoted, height).  A genesis header (version 0) carries no
+\* BFT information: it has priority exactly over chains that do not reach above it.
+\* Executer.Synced(h, p) asks the same question for the node's own tip (hh = its height, hp = the prevoted height of its
+\* chain INCLUDING the tip): "is my chain ahead of a peer that reports (h, p)".
+Prios == [ver : {0, 2}, hh : 0..MaxF, hp : 0..MaxF, h : 0..MaxF, p : 0..MaxF]
+HasPriority(q) ==
+  IF q.ver = 0 THEN q.h <= q.hh /\ q.p <= q.hh
+  ELSE Better([mhp |-> q.hp, h |-> q.hh], [mhp |-> q.p, h |-> q.h])
+\* the genesis rule is monotone too (a chain above the genesis block is never behind it), and for version 2 exactly one of
+\* "has priority", "the other has priority", "equal" holds
+PrioProps(q) ==
+  /\ (q.ver = 2 => (HasPriority(q) => ~HasPriority([q EXCEPT !.hh = q.h, !.hp = q.p, !.h = q.hh, !.p = q.hp])))
+  /\ (q.ver = 2 /\ q.hh = q.h /\ q.hp = q.p => ~HasPriority(q))
+  /\ (q.ver = 0 /\ q.h > q.hh => ~HasPriority(q))
 
 Init == x \in (IF Mode = "pairs" THEN Hdrs \X Hdrs ELSE IF Mode = "classify" THEN Cases ELSE Prios)
 Next == UNCHANGED x
 Spec == Init /\ [][Next]_fvars
 
-Props == IF Mode = "pairs" THEN PairProps(x[1], x[2]) ELSE IF Mode = "classify" THEN ClassifyProps(x) ELSE TRUE
+Props == IF Mode = "pairs" THEN PairProps(x[1], x[2]) ELSE IF Mode = "classify" THEN ClassifyProps(x) ELSE PrioProps(x)
 
 B(b) == IF b THEN 1 ELSE 0
 Row ==
   IF Mode = "pairs"
   THEN PrintT(<<"TT", x[1].h, x[1].mhg, x[1].mhp, x[1].gen, x[2].h, x[2].mhg, x[2].mhp, x[2].gen, B(Contra(x[1], x[2]))>>)
   ELSE IF Mode = "classify"
-  THEN PrintT(<<"TC", x.inc.id, x.inc.h, x.inc.prev, x.inc.gen, x.inc.mhp, x.inc.slot, x.recvLast, B(x.recvCur), Classify(x), B(PIdentical(x)), B(PValid(x)), B(PDouble(x)), B(PTie(x)), B(PDiff(x))>>)
-  ELSE PrintT(<<"TP", x.hh, x.hp, x.h, x.p, B(HasPriority(x))>>)
+  THEN PrintT(<<"TC", x.inc.id, x.inc.h, x.inc.prev, x.inc.gen, x.inc.mhp, x.inc.slot, x.recvLast, x.recvCur, Classify(x), B(PIdentical(x)), B(PValid(x)), B(PDouble(x)), B(PTie(x)), B(PDiff(x))>>)
+  ELSE PrintT(<<"TP", x.hh, x.hp, x.h, x.p, B(HasPriority(x)), x.ver>>)
 =============================================================================
